@@ -4,7 +4,7 @@ from pyvc.loader import Repo
 from pyvc.engine import verify
 import importlib
 mod = importlib.import_module(sys.argv[1])
-repo = Repo('/repo')
+repo = Repo('/repo', numpy_mode=getattr(mod.HARNESSES[0], 'numpy_mode', 'real'))
 for h in mod.HARNESSES:
     if len(sys.argv) > 2 and sys.argv[2] not in h.name: continue
     t0=time.time()
